@@ -184,7 +184,9 @@ def run(ctx):
         "For each built-in hyperelastic law the AST of Compute_W / Compute_dWde / Compute_d2Wde is interpreted into (i) the energy as an expression in the invariants and "
         "(ii) the assembled stress and tangent as linear forms over the tensor atoms dIk/dC, d2Ik/dC2, dIi/dC (x) dIj/dC. Every coefficient is compared with the symbolic "
         "derivative of W (2 dW/dIk, 4 dW/dIk, 4 d2W/dIidIj; absent terms must have a zero derivative), for all deformation states and parameter values. Reference state: "
-        "W = 0 and zero stress at C = I. NOT decided: the tensor derivatives of the invariants in _state.py, the non-linear operators, discrete energy conservation, AutoDiff laws."
+        "W = 0 and zero stress at C = I. The invariant derivatives of _state.py (R18.2), the Green-Lagrange kinematics (R18.11) and EVERY "
+        "non-linear element operator, interpreted end to end on a symbolic element with a generic polynomial energy (residual == dE/dU, tangent == dR/dU, damping, Gonzalez discrete gradient: R18.12, R18.13), "
+        "the Clenshaw-Curtis rule (R18.15) and the bookkeeping of the adaptive rule (R18.17) are decided. NOT decided: AutoDiff laws, convergence of the Newton iterations, energy drift of a real run."
     )
     ctx.trust("sympy (tooling venv) as rewriting engine: diff, together, expand; cross-checked by 60-digit evaluation at random rational points when the normal form is not reached")
     ctx.trust("sa/xeval.py interpreter; substitution I3 = t^6 (t > 0) to clear the rational powers")
